@@ -7,14 +7,19 @@
   "Which fields are invalid" is `invalidFields`, defined from `validate` (Sem/Validate.lean, the
   C01/C02 model) and from nothing in the message code.
 
-  The pinned code violates the full statement (`Statement`, refuted by `statement_false`):
-    * a newline in the message body defeats `(.*)$`  (value of `…; Got <v>` shapes, any problem
-      text, e.g. a `pattern` with a newline)                              → `*_loses_field` theorems
-    * a field / class name outside `[a-zA-Z0-9_.]` defeats the field group → `non_ascii_name_loses_field`
-    * some checks raise foreign exceptions without any path (`anon`)       → `anon_message_no_field`
-  What holds, and is proved for all classes, argument sets, texts and codecs, is the statement
-  restricted by explicit decidable side conditions (`statement_partial`), together with the
-  *exact* condition under which a message keeps its field (`render_parse_exact`).
+  State of the code this file mirrors (/repo 4d96101, 041aebb, 9c7ef9a): the message regexes are
+  DOTALL with field group `[\w.]+`, and no check of a flat field raises a foreign exception.
+  Consequences, all proved below for every class, argument set, text and codec:
+    * a message `<field>: <rest>` keeps its field for EVERY rest (newlines, `;`, anything) — the
+      exact condition is only that the field text is in `[\w.]+` (`render_parse_exact`, an iff);
+    * the problem is non-empty as soon as the rendered problem text is (plus, for the two shapes
+      that do not start with `Got `, a condition on the first character that every typedpy problem
+      text satisfies) — `render_parse`;
+    * in collect-all mode the messages and `ErrorInfo.field`s are exactly the supplied fields that
+      `validate` rejects, with NO condition on the texts (`collect_all_exact`).
+  What remains false: a class / field name containing a character outside `[\w.]` — e.g. a valid
+  identifier with a combining mark — still loses its field (`non_word_name_loses_field`,
+  `statement_false`).
 -/
 import TypedpyModel.Lemmas.Errors
 namespace Typedpy.C18
@@ -22,98 +27,23 @@ open Typedpy Typedpy.Err
 
 /-! ### render → parse -/
 
-/-- sufficient side condition on the value / problem texts of a message, per shape -/
+/-- side condition on the texts of a message, per shape, for a NON-EMPTY parsed problem (the field
+    needs none).  All typedpy problem texts (`Expected …`, `Does not match …`) satisfy it. -/
 def goodTexts : Shape → Text → Text → Bool
-  | .gotFirst, v, p => noSemi v && noNL p && !p.isEmpty
-  | .gotLast, v, p => noNL v && noNL p && !p.isEmpty && p.head? != some 'G'
-  | .plain, _, p => noNL p && !p.isEmpty && p.head? != some 'G' && p.head? != some ';'
+  | .gotFirst, _, p => !p.isEmpty
+  | .gotLast, _, p => !p.isEmpty && p.head? != some 'G'
+  | .plain, _, p => !p.isEmpty && p.head? != some 'G' && p.head? != some ';'
 
-/-- EXACT condition: a message `<field>: <rest>` whose field text is in `[a-zA-Z0-9_.]+` keeps its
-    field iff regex 1 matches the rest or the rest is a single line (regexes 2/3). -/
-theorem render_parse_exact (f rest : Text) (hf : identOk f = true) :
-    (parseMsg (f ++ ':' :: ' ' :: rest)).field = some f ↔ recoverable rest = true := by
-  rw [parse_field f rest hf]
-  cases recoverable rest <;> simp
-
-theorem render_eq (m : Msg) :
-    m.render = m.fullPath ++ ':' :: ' ' :: body m.shape m.value m.problem := by
-  simp [Msg.render, Msg.fullPath, withClass_append]
-
-/-- every rendered message whose texts satisfy the side condition is parsed back to its full path
-    and a non-empty problem -/
-theorem render_parse (m : Msg) (hp : identOk m.fullPath = true)
-    (ht : goodTexts m.shape m.value m.problem = true) :
-    (parseMsg m.render).field = some m.fullPath ∧ (parseMsg m.render).problem ≠ [] := by
-  rw [render_eq, parseMsg_header _ _ hp]
-  obtain ⟨cls, path, shape, v, p⟩ := m
-  cases shape with
-  | gotFirst =>
-    simp only [goodTexts, Bool.and_eq_true, Bool.not_eq_true'] at ht
-    obtain ⟨⟨hv, hnl⟩, hne⟩ := ht
-    have hne' : p ≠ [] := by intro h; simp [h] at hne
-    rw [parseTail_space, m1tail_gotFirst v p hv hnl]
-    exact ⟨by first | rfl | trivial, transform_nonempty p hne'⟩
-  | gotLast =>
-    simp only [goodTexts, Bool.and_eq_true, Bool.not_eq_true', bne_iff_ne, ne_eq] at ht
-    obtain ⟨⟨⟨hv, hnl⟩, hne⟩, hG⟩ := ht
-    have hne' : p ≠ [] := by intro h; simp [h] at hne
-    have hhead : (body .gotLast v p).head? ≠ some 'G' := by
-      cases p with
-      | nil => exact absurd rfl hne'
-      | cons x xs => simpa [body] using hG
-    have hline : noNL (body .gotLast v p) = true := by
-      have h3 : noNL sSemiGot = true := by decide
-      simp only [body, noNL_append, hv, hnl, h3, Bool.and_self]
-    rw [parseTail_line _ hhead hline]
-    obtain ⟨a, b, hab, hlen⟩ := splitLast_append sSemiGot (by decide) p v
-    simp only [body, hab]
-    refine ⟨by first | rfl | trivial, transform_nonempty a ?_⟩
-    intro ha
-    cases p with
-    | nil => exact hne' rfl
-    | cons x xs => simp [ha] at hlen
-  | plain =>
-    simp only [goodTexts, Bool.and_eq_true, Bool.not_eq_true', bne_iff_ne, ne_eq] at ht
-    obtain ⟨⟨⟨hnl, hne⟩, hG⟩, hS⟩ := ht
-    have hne' : p ≠ [] := by intro h; simp [h] at hne
-    rw [parseTail_line (body .plain v p) (by simpa [body] using hG) (by simpa [body] using hnl)]
-    simp only [body]
-    cases hs : splitLast sSemiGot p with
-    | none => exact ⟨by first | rfl | trivial, transform_nonempty p hne'⟩
-    | some ab =>
-      refine ⟨by first | rfl | trivial, transform_nonempty ab.1 ?_⟩
-      intro ha
-      have := splitLast_eq sSemiGot p ab.1 ab.2 (by simp [hs])
-      rw [ha] at this
-      apply hS
-      rw [this]; rfl
-
-/-- shape 1 (`Got <v>; <problem>`) with a `;`-free value also returns exactly the value and the
-    (transformed) problem, whatever else the value contains (newlines included) -/
-theorem render_parse_gotFirst (f v p : Text) (hf : identOk f = true) (hv : noSemi v = true)
-    (hp : noNL p = true) :
-    parseMsg (f ++ ':' :: ' ' :: body .gotFirst v p) =
-      ⟨some f, some v, (transform p).1, (transform p).2⟩ := by
-  rw [parseMsg_header _ _ hf, parseTail_space, m1tail_gotFirst v p hv hp]
-
-/-- any shape keeps its field when neither text contains a newline (a `;` in the value only
-    demotes shape 1 to regex 3) -/
-theorem render_parse_field_noNL (m : Msg) (hp : identOk m.fullPath = true)
-    (hv : noNL m.value = true) (hq : noNL m.problem = true) :
-    (parseMsg m.render).field = some m.fullPath := by
-  rw [render_eq, render_parse_exact _ _ hp]
-  exact recoverable_of_noNL _ _ _ hv hq
-
-/-- a message without newline whose field text is not in `[a-zA-Z0-9_.]+` never keeps it … -/
-theorem field_chars_necessary (s : Text) (f : Text) (h : (parseMsg s).field = some f) :
-    identOk f = true := by
+/-- any parsed field is a non-empty run of `[\w.]` -/
+theorem field_chars_necessary (W : Word) (s : Text) (f : Text) (h : (parseMsg W s).field = some f) :
+    identOk W f = true := by
   unfold parseMsg at h
   split at h
   · rename_i a as c rest h1 h2
     split at h
     · simp only [Option.some.injEq] at h
       rw [← h, ← h1]
-      have : ∀ t : Text, (spanField t).1.all isFieldChar = true := by
+      have : ∀ t : Text, (spanField W t).1.all (isFieldChar W) = true := by
         intro t
         induction t with
         | nil => rfl
@@ -127,69 +57,147 @@ theorem field_chars_necessary (s : Text) (f : Text) (h : (parseMsg s).field = so
     · simp at h
   · simp at h
 
-/-! ### kernel-checked counterexamples (each is replayed on the real code as a known finding) -/
+/-- EXACT condition: `<field>: <rest>` keeps its field iff the field text is in `[\w.]+` —
+    whatever the rest contains (newlines, `;`, `; Got `, JSON, …) -/
+theorem render_parse_exact (W : Word) (hW : W.Sound) (f rest : Text) :
+    (parseMsg W (f ++ ':' :: ' ' :: rest)).field = some f ↔ identOk W f = true :=
+  ⟨field_chars_necessary W _ f, parse_field W hW f rest⟩
+
+theorem render_eq (m : Msg) :
+    m.render = m.fullPath ++ ':' :: ' ' :: body m.shape m.value m.problem := by
+  simp [Msg.render, Msg.fullPath, withClass_append]
+
+/-- every rendered message is parsed back to its full path; its problem is non-empty under the
+    side condition (which no longer mentions the value, `;` or newlines) -/
+theorem render_parse (W : Word) (hW : W.Sound) (m : Msg) (hp : identOk W m.fullPath = true)
+    (ht : goodTexts m.shape m.value m.problem = true) :
+    (parseMsg W m.render).field = some m.fullPath ∧ (parseMsg W m.render).problem ≠ [] := by
+  refine ⟨by rw [render_eq]; exact parse_field W hW _ _ hp, ?_⟩
+  rw [render_eq, parseMsg_header W hW _ _ hp]
+  obtain ⟨cls, path, shape, v, p⟩ := m
+  have hsplit : ∀ rest : Text, rest ≠ [] → rest.head? ≠ some ';' →
+      transform (m23tail rest).2 ≠ [] := by
+    intro rest hne hh
+    unfold m23tail
+    cases hs : splitLast sSemiGot rest with
+    | none => exact transform_nonempty _ hne
+    | some ab =>
+      refine transform_nonempty ab.1 ?_
+      intro ha
+      have := splitLast_eq sSemiGot rest ab.1 ab.2 (by simp [hs])
+      rw [ha] at this
+      apply hh
+      rw [this]; rfl
+  cases shape with
+  | gotFirst =>
+    simp only [goodTexts, Bool.not_eq_true', List.isEmpty_eq_false_iff] at ht
+    rw [parseTail_space]
+    cases h1 : m1tail (body .gotFirst v p) with
+    | some vp =>
+      refine transform_nonempty vp.2 ?_
+      have := m1tail_problem_length v p vp h1
+      intro h0
+      rw [h0] at this
+      cases p with
+      | nil => exact ht rfl
+      | cons x xs => simp at this
+    | none => exact hsplit _ (by simp [body, sGot]) (by simp [body, sGot])
+  | gotLast =>
+    simp only [goodTexts, Bool.and_eq_true, Bool.not_eq_true', bne_iff_ne, ne_eq,
+      List.isEmpty_eq_false_iff] at ht
+    obtain ⟨hne, hG⟩ := ht
+    have hhead : (body .gotLast v p).head? ≠ some 'G' := by
+      cases p with
+      | nil => exact absurd rfl hne
+      | cons x xs => simpa [body] using hG
+    rw [parseTail_line _ hhead]
+    obtain ⟨a, b, hab, hlen⟩ := splitLast_append sSemiGot (by decide) p v
+    simp only [body, m23tail, hab]
+    refine transform_nonempty a ?_
+    intro ha
+    cases p with
+    | nil => exact hne rfl
+    | cons x xs => simp [ha] at hlen
+  | plain =>
+    simp only [goodTexts, Bool.and_eq_true, Bool.not_eq_true', bne_iff_ne, ne_eq,
+      List.isEmpty_eq_false_iff] at ht
+    obtain ⟨⟨hne, hG⟩, hS⟩ := ht
+    rw [parseTail_line (body .plain v p) (by simpa [body] using hG)]
+    exact hsplit _ (by simpa [body] using hne) (by simpa [body] using hS)
+
+/-- shape 1 (`Got <v>; <problem>`) with a `;`-free value returns exactly the value and the
+    (transformed) problem, whatever else both contain (newlines included) -/
+theorem render_parse_gotFirst (W : Word) (hW : W.Sound) (f v p : Text) (hf : identOk W f = true)
+    (hv : noSemi v = true) :
+    parseMsg W (f ++ ':' :: ' ' :: body .gotFirst v p) = ⟨some f, some v, transform p⟩ := by
+  rw [parseMsg_header W hW _ _ hf, parseTail_space, m1tail_gotFirst v p hv]
+
+/-- the side condition of `render_parse` is needed: an empty problem text is parsed as empty -/
+theorem empty_problem_example :
+    (parseMsg asciiWord (Msg.render ⟨some "Foo".toList, "i".toList, .gotFirst, "1".toList, []⟩)).problem = [] := by
+  decide
+
+/-! ### the former newline / non-ASCII findings are now positive facts (kernel-checked instances
+    of `render_parse_exact`; both were counterexamples before /repo 4d96101) -/
 
 def msgIntNewline : Msg :=
   ⟨some "Foo".toList, "i".toList, .gotLast, "'a\nb'".toList, "Expected <class 'int'>".toList⟩
 
-/-- finding `field-lost:newline`: `Integer` given `'a\nb'` — `Foo.i: Expected <class 'int'>; Got 'a\nb'`
-    matches none of the three regexes; the field is lost -/
-theorem newline_value_loses_field : (parseMsg msgIntNewline.render).field = none := by decide
+/-- `Integer` given `'a\nb'`: field, value (with its newline) and readable problem all recovered -/
+theorem newline_value_keeps_field :
+    parseMsg asciiWord msgIntNewline.render =
+      ⟨some "Foo.i".toList, some "'a\nb'".toList, "Expected an integer number".toList⟩ := by decide
 
-/-- shape 1 survives a newline in the value (`[^;]*` matches it) … -/
-theorem newline_value_gotFirst_keeps_field :
-    (parseMsg (Msg.render ⟨some "Foo".toList, "s".toList, .gotFirst, "'a\nb'".toList,
-      "Expected a maximum length of 2".toList⟩)).field = some "Foo.s".toList := by decide
-
-/-- … but not a newline in the problem text (`String(pattern='^a\nb')`) -/
-theorem newline_problem_loses_field :
-    (parseMsg (Msg.render ⟨some "Foo".toList, "s".toList, .gotFirst, "'x'".toList,
-      "Does not match regular expression: '^a\nb'".toList⟩)).field = none := by decide
-
-/-- a `;` in a shape-1 value sends the message to regex 3: field kept, value lost, the problem is
-    the whole rest -/
-theorem semicolon_value_demoted :
-    parseMsg (Msg.render ⟨some "Foo".toList, "s".toList, .gotFirst, "'a;b'".toList,
-      "Expected a maximum length of 2".toList⟩) =
-      ⟨some "Foo.s".toList, none, "Got 'a;b'; Expected a maximum length of 2".toList, false⟩ := by
+/-- `String(pattern='^a\nb')`: a newline in the problem text is harmless too -/
+theorem newline_problem_keeps_field :
+    parseMsg asciiWord (Msg.render ⟨some "Foo".toList, "s".toList, .gotFirst, "'x'".toList,
+      "Does not match regular expression: '^a\nb'".toList⟩) =
+      ⟨some "Foo.s".toList, some "'x'".toList, "Does not match regular expression: '^a\nb'".toList⟩ := by
   decide
 
-/-- finding `field-lost:non-ascii-name`: a field called `é` -/
-theorem non_ascii_name_loses_field :
-    (parseMsg (Msg.render ⟨some "Foo".toList, "é".toList, .gotLast, "'x'".toList,
+/-- a `;` in a shape-1 value still sends the message to regex 3: field kept, value lost, the
+    problem is the whole rest -/
+theorem semicolon_value_demoted :
+    parseMsg asciiWord (Msg.render ⟨some "Foo".toList, "s".toList, .gotFirst, "'a;b'".toList,
+      "Expected a maximum length of 2".toList⟩) =
+      ⟨some "Foo.s".toList, none, "Got 'a;b'; Expected a maximum length of 2".toList⟩ := by
+  decide
+
+/-- a field called `é` (`'é'.isalnum()` holds in Python) keeps its field -/
+theorem non_ascii_name_keeps_field :
+    (parseMsg (fun c => asciiWord c || c == 'é')
+      (Msg.render ⟨some "Foo".toList, "é".toList, .gotLast, "'x'".toList,
+        "Expected <class 'int'>".toList⟩)).field = some "Foo.é".toList := by decide
+
+/-- finding `field-lost:non-word-name` (what is left of the name findings): a path containing any
+    character outside `[\w.]` never comes back as the field, whatever the rest -/
+theorem non_word_name_loses_field (W : Word) (f rest : Text) (h : identOk W f = false) :
+    (parseMsg W (f ++ ':' :: ' ' :: rest)).field ≠ some f := by
+  intro hf
+  rw [field_chars_necessary W _ f hf] at h
+  exact absurd h (by simp)
+
+/-- … e.g. the valid Python identifier `x` + U+0301 (combining acute; not `isalnum`) -/
+theorem combining_mark_name_loses_field :
+    (parseMsg asciiWord (Msg.render ⟨some "Foo".toList, ['x', '́'], .gotLast, "'a'".toList,
       "Expected <class 'int'>".toList⟩)).field = none := by decide
 
-/-- finding `no-path:*`: foreign exception texts (`Positive` given a str, `Boolean` given a list)
-    carry no path; with the class prefix of `Structure.__init__` nothing is recognised -/
-theorem anon_message_no_field :
-    (parseMsg "Foo.unhashable type: 'list'".toList).field = none ∧
-    (parseMsg "Foo.'<=' not supported between instances of 'str' and 'int'".toList).field = none := by
-  decide
-
-/-- finding `field-lost:deser-json-under-failfast`: the JSON list that `construct_fields_map`
-    raises for a falsy input even in fail-fast mode is not decoded by the helper -/
-theorem json_list_text_no_field :
-    (parseMsg "[\"Foo.i: Got 0; Expected a minimum of 3\"]".toList).field = none := by decide
-
-/-- findings `no-path:enum-invalid-value:deser`, `no-path:unnamed-inner-field:deser-collection`,
-    `no-path:unhashable:deser-set` (and the former `no-path:index-error:deser-positional`): texts
-    that deserialization raises without any path — bare, and with the class prefix that
+/-- findings `no-path:unnamed-inner-field:deser-collection`, `no-path:unhashable:deser-set`: texts
+    that deserialization still raises without any path — bare, and with the class prefix that
     `raise_errs_if_needed` adds — give no field (or, for an unnamed Enum item, the field `None`) -/
 theorem deser_foreign_texts_no_field :
-    (parseMsg "Invalid value: 'PINK'".toList).field = none ∧
-    (parseMsg "Foo.Invalid value: 'PINK'".toList).field = none ∧
-    (parseMsg "Expected <class 'int'>; Got 'x'".toList).field = none ∧
-    (parseMsg "Foo.Expected <class 'int'>; Got 'x'".toList).field = none ∧
-    (parseMsg "list index out of range".toList).field = none ∧
-    (parseMsg "None: Got 5; Expected one of 1, 2".toList).field = some "None".toList := by
+    (parseMsg asciiWord "Expected <class 'int'>; Got 'x'".toList).field = none ∧
+    (parseMsg asciiWord "Foo.Expected <class 'int'>; Got 'x'".toList).field = none ∧
+    (parseMsg asciiWord "unhashable type: 'list'".toList).field = none ∧
+    (parseMsg asciiWord "Foo.unhashable type: 'list'".toList).field = none ∧
+    (parseMsg asciiWord "None: Got 5; Expected one of 1, 2".toList).field = some "None".toList := by
   decide
 
-/-- `Expected <class 'int'>` becomes readable; a class without display name is formatted from the
-    match object (flag set) — a defect of `_transform_class_to_readable`, not of the property -/
+/-- `Expected <class 'int'>` becomes readable; a class without display name is left unchanged -/
 theorem transform_examples :
-    transform "Expected <class 'int'>".toList = ("Expected an integer number".toList, false) ∧
-    (transform "Expected <class 'bool'>".toList).2 = true ∧
-    transform "Expected a string".toList = ("Expected a string".toList, false) := by decide
+    transform "Expected <class 'int'>".toList = "Expected an integer number".toList ∧
+    transform "Expected <class 'bool'>".toList = "Expected <class 'bool'>".toList ∧
+    transform "Expected a string".toList = "Expected a string".toList := by decide
 
 /-! ### the helper never raises on typedpy rejections -/
 
@@ -247,59 +255,36 @@ def BeginsWithPath (cls : Text) (t : Text) (n : String) : Prop :=
 def InfoNames (cls : Text) (i : Info) (n : String) : Prop :=
   ∃ p, i.field = some p ∧ namesField (some cls) n p
 
-/-- the site raises a typedpy message (with a path) whose texts satisfy the side condition -/
-def siteGood (T : Texts) (s : Site) : Bool :=
-  !s.loc.anon && goodTexts s.loc.shape (T s).1 (T s).2
+/-- the site's texts satisfy the side condition for a non-empty problem -/
+def siteGood (T : Texts) (s : Site) : Bool := goodTexts s.loc.shape (T s).1 (T s).2
 
-/-- weaker: only what is needed for the field (exact condition on the body) -/
-def siteRecoverable (T : Texts) (s : Site) : Bool :=
-  !s.loc.anon && recoverable (body s.loc.shape (T s).1 (T s).2)
-
-theorem goodTexts_recoverable (sh : Shape) (v p : Text) (h : goodTexts sh v p = true) :
-    recoverable (body sh v p) = true := by
-  cases sh with
-  | gotFirst =>
-    simp only [goodTexts, Bool.and_eq_true] at h
-    exact recoverable_gotFirst v p h.1.1 h.1.2
-  | gotLast =>
-    simp only [goodTexts, Bool.and_eq_true] at h
-    exact recoverable_of_noNL _ v p h.1.1.1 h.1.1.2
-  | plain =>
-    simp only [goodTexts, Bool.and_eq_true] at h
-    simp [body, recoverable, dotEnd_noNL p h.1.1.1]
-
-theorem siteGood_recoverable (T : Texts) (s : Site) (h : siteGood T s = true) :
-    siteRecoverable T s = true := by
-  simp only [siteGood, siteRecoverable, Bool.and_eq_true] at *
-  exact ⟨h.1, goodTexts_recoverable _ _ _ h.2⟩
-
-/-- text of a named site with the class prefix = full path, `: `, body -/
-theorem site_text (T : Texts) (cls : Text) (s : Site) (hn : s.loc.anon = false) :
+/-- text of a site with the class prefix = full path, `: `, body -/
+theorem site_text (T : Texts) (cls : Text) (s : Site) :
     withClass (some cls) (s.text T) =
       withClass (some cls) (s.top.toList ++ s.loc.suffix.text) ++
         ':' :: ' ' :: body s.loc.shape (T s).1 (T s).2 := by
-  simp [Site.text, hn, withClass]
+  simp [Site.text, withClass]
 
-theorem site_begins (T : Texts) (cls : Text) (s : Site) (hn : s.loc.anon = false) :
+theorem site_begins (T : Texts) (cls : Text) (s : Site) :
     BeginsWithPath cls (withClass (some cls) (s.text T)) s.top :=
-  ⟨s.loc.suffix, _, site_text T cls s hn⟩
+  ⟨s.loc.suffix, _, site_text T cls s⟩
 
-theorem site_field (T : Texts) (cls : Text) (s : Site) (hc : identOk cls = true)
-    (ht : identOk s.top.toList = true) (h : siteRecoverable T s = true) :
-    (parseMsg (withClass (some cls) (s.text T))).field =
+/-- every site's message keeps its full path — no condition on the texts -/
+theorem site_field (W : Word) (hW : W.Sound) (T : Texts) (cls : Text) (s : Site)
+    (hc : identOk W cls = true) (ht : identOk W s.top.toList = true) :
+    (parseMsg W (withClass (some cls) (s.text T))).field =
       some (withClass (some cls) (s.top.toList ++ s.loc.suffix.text)) := by
-  simp only [siteRecoverable, Bool.and_eq_true, Bool.not_eq_true'] at h
-  rw [site_text T cls s h.1, render_parse_exact _ _ (identOk_path cls _ _ hc ht)]
-  exact h.2
+  rw [site_text T cls s]
+  exact parse_field W hW _ _ (identOk_path W hW cls _ _ hc ht)
 
-theorem site_problem (T : Texts) (cls : Text) (s : Site) (hc : identOk cls = true)
-    (ht : identOk s.top.toList = true) (h : siteGood T s = true) :
-    (parseMsg (withClass (some cls) (s.text T))).problem ≠ [] := by
-  simp only [siteGood, Bool.and_eq_true, Bool.not_eq_true'] at h
-  have := render_parse ⟨some cls, s.top.toList ++ s.loc.suffix.text, s.loc.shape, (T s).1, (T s).2⟩
-    (identOk_path cls _ _ hc ht) h.2
+theorem site_problem (W : Word) (hW : W.Sound) (T : Texts) (cls : Text) (s : Site)
+    (hc : identOk W cls = true) (ht : identOk W s.top.toList = true) (h : siteGood T s = true) :
+    (parseMsg W (withClass (some cls) (s.text T))).problem ≠ [] := by
+  have := render_parse W hW
+    ⟨some cls, s.top.toList ++ s.loc.suffix.text, s.loc.shape, (T s).1, (T s).2⟩
+    (identOk_path W hW cls _ _ hc ht) h
   rw [render_eq] at this
-  rw [site_text T cls s h.1]
+  rw [site_text T cls s]
   exact this.2
 
 /-- what the property says about one run of `cls(**kw)` under the global switch `ff`, observed at
@@ -316,19 +301,26 @@ def Reported (O : Oracles) (T : Texts) (J : Codec) (ff : Bool) (c : ClassOpts)
         Aligned (InfoNames c.name.toList) infos (invalidFields O c kw fields)
   | _ => True
 
-/-- C18 at full strength, for flat classes: every class, argument set, text, codec, both modes -/
+/-- the texts are typedpy's: every problem text satisfies the (first-character / non-empty) side
+    condition -/
+def TextsWellFormed (T : Texts) : Prop := ∀ s, siteGood T s = true
+
+/-- C18 at full strength, for flat classes: every class (ANY names), argument set, well-formed
+    texts, codec whose `isalnum` oracle is sound, both modes -/
 def Statement : Prop :=
   ∀ (O : Oracles) (T : Texts) (J : Codec) (ff : Bool) (c : ClassOpts)
     (fields : List (String × FieldDecl)) (kw : List (String × PyVal)),
-    (ff = false → J.RoundTrip) → fields.all (fun nf => isFlatDecl nf.2) = true →
+    J.word.Sound → (ff = false → J.RoundTrip) → TextsWellFormed T →
+    fields.all (fun nf => isFlatDecl nf.2) = true →
     Reported O T J ff c fields kw
 
 /-- collect-all mode: the messages and the reported `ErrorInfo.field`s are, position by position,
-    exactly the supplied fields that `validate` rejects (in signature order) -/
-theorem collect_all_exact (O : Oracles) (T : Texts) (J : Codec) (hJ : J.RoundTrip) (c : ClassOpts)
+    exactly the supplied fields that `validate` rejects (in signature order) — for ALL texts -/
+theorem collect_all_exact (O : Oracles) (T : Texts) (J : Codec) (hJ : J.RoundTrip)
+    (hW : J.word.Sound) (c : ClassOpts)
     (fields : List (String × FieldDecl)) (kw : List (String × PyVal)) (ts : List Text)
-    (hc : identOk c.name.toList = true) (hn : ∀ nf ∈ fields, identOk nf.1.toList = true)
-    (hs : ∀ s ∈ sites O c kw fields, siteRecoverable T s = true)
+    (hc : identOk J.word c.name.toList = true)
+    (hn : ∀ nf ∈ fields, identOk J.word nf.1.toList = true)
     (h : constructRaises O T false c fields kw = .collected ts) :
     Aligned (BeginsWithPath c.name.toList) ts (invalidFields O c kw fields) ∧
       ∃ infos, readable false J (J.dumps ts) = .ok (.many infos) ∧
@@ -342,14 +334,9 @@ theorem collect_all_exact (O : Oracles) (T : Texts) (J : Codec) (hJ : J.RoundTri
       · rename_i s ss hss
         simp only [Bool.false_eq_true, if_false, Raised.collected.injEq] at h
         rw [hss, ← h]
-  have hanon : ∀ s ∈ sites O c kw fields, s.loc.anon = false := by
-    intro s hs'
-    have := hs s hs'
-    simp only [siteRecoverable, Bool.and_eq_true, Bool.not_eq_true'] at this
-    exact this.1
   refine ⟨?_, ?_⟩
   · rw [hts, ← sites_tops]
-    exact aligned_map _ _ _ _ fun s hs' => site_begins T _ s (hanon s hs')
+    exact aligned_map _ _ _ _ fun s _ => site_begins T _ s
   · refine ⟨_, readable_collected J hJ ts, ?_⟩
     rw [hts, ← sites_tops, List.map_map]
     apply aligned_map
@@ -357,13 +344,14 @@ theorem collect_all_exact (O : Oracles) (T : Texts) (J : Codec) (hJ : J.RoundTri
     obtain ⟨nf, hnf, htop⟩ := sites_mem_field O c kw fields s hs'
     refine ⟨_, ?_, s.loc.suffix, rfl⟩
     rw [Function.comp_apply, internal_field]
-    exact site_field T _ s hc (htop ▸ hn nf hnf) (hs s hs')
+    exact site_field J.word hW T _ s hc (htop ▸ hn nf hnf)
 
 /-- fail-fast mode: the single exception names (in its text and through the helper) one of the
     supplied fields that `validate` rejects, with a non-empty problem -/
-theorem fail_fast_member (O : Oracles) (T : Texts) (J : Codec) (c : ClassOpts)
+theorem fail_fast_member (O : Oracles) (T : Texts) (J : Codec) (hW : J.word.Sound) (c : ClassOpts)
     (fields : List (String × FieldDecl)) (kw : List (String × PyVal)) (e : ErrCls) (t : Text)
-    (hc : identOk c.name.toList = true) (hn : ∀ nf ∈ fields, identOk nf.1.toList = true)
+    (hc : identOk J.word c.name.toList = true)
+    (hn : ∀ nf ∈ fields, identOk J.word nf.1.toList = true)
     (hs : ∀ s ∈ sites O c kw fields, siteGood T s = true)
     (h : constructRaises O T true c fields kw = .single e t) :
     ∃ n, n ∈ invalidFields O c kw fields ∧ BeginsWithPath c.name.toList t n ∧
@@ -378,35 +366,32 @@ theorem fail_fast_member (O : Oracles) (T : Texts) (J : Codec) (c : ClassOpts)
       simp only [if_true, Raised.single.injEq] at h
       have hmem : s ∈ sites O c kw fields := by rw [hss]; exact List.mem_cons_self
       have hg := hs s hmem
-      have hanon : s.loc.anon = false := by
-        simp only [siteGood, Bool.and_eq_true, Bool.not_eq_true'] at hg; exact hg.1
       obtain ⟨nf, hnf, htop⟩ := sites_mem_field O c kw fields s hmem
-      have htopOk : identOk s.top.toList = true := htop ▸ hn nf hnf
+      have htopOk : identOk J.word s.top.toList = true := htop ▸ hn nf hnf
       refine ⟨s.top, ?_, ?_, ?_⟩
       · rw [← sites_tops, hss]; simp
-      · rw [← h.2]; exact site_begins T _ s hanon
+      · rw [← h.2]; exact site_begins T _ s
       · refine ⟨_, rfl, ⟨_, ?_, s.loc.suffix, rfl⟩, ?_⟩
         · rw [internal_field, ← h.2]
-          exact site_field T _ s hc htopOk (siteGood_recoverable T s hg)
+          exact site_field J.word hW T _ s hc htopOk
         · rw [internal_failFast, ← h.2]
-          have := site_problem T _ s hc htopOk hg
+          have := site_problem J.word hW T _ s hc htopOk hg
           simp only [Info.problemNonEmpty, Bool.not_eq_true', List.isEmpty_eq_false_iff]
           exact this
 
-/-- C18 restricted to the region outside the known findings: ASCII class / field names, every
-    rejection raised by a typedpy check with a path (`anon = false`), texts satisfying the
-    per-shape side condition `goodTexts` -/
+/-- C18 holds whenever the class and field names are in `[\w.]+` (the only exclusion left; the
+    foreign-exception and newline regions of earlier versions are gone) -/
 theorem statement_partial (O : Oracles) (T : Texts) (J : Codec) (ff : Bool) (c : ClassOpts)
     (fields : List (String × FieldDecl)) (kw : List (String × PyVal))
-    (hJ : ff = false → J.RoundTrip)
-    (hc : identOk c.name.toList = true) (hn : ∀ nf ∈ fields, identOk nf.1.toList = true)
-    (hs : ∀ s ∈ sites O c kw fields, siteGood T s = true) :
+    (hW : J.word.Sound) (hJ : ff = false → J.RoundTrip) (hT : TextsWellFormed T)
+    (hc : identOk J.word c.name.toList = true)
+    (hn : ∀ nf ∈ fields, identOk J.word nf.1.toList = true) :
     Reported O T J ff c fields kw := by
   unfold Reported
   split
   · rename_i e t h
     cases ff with
-    | true => exact fail_fast_member O T J c fields kw e t hc hn hs h
+    | true => exact fail_fast_member O T J hW c fields kw e t hc hn (fun s _ => hT s) h
     | false =>
       exfalso
       unfold constructRaises at h
@@ -415,9 +400,7 @@ theorem statement_partial (O : Oracles) (T : Texts) (J : Codec) (ff : Bool) (c :
       · split at h <;> simp at h
   · rename_i ts h
     cases ff with
-    | false =>
-      exact collect_all_exact O T J (hJ rfl) c fields kw ts hc hn
-        (fun s hs' => siteGood_recoverable T s (hs s hs')) h
+    | false => exact collect_all_exact O T J (hJ rfl) hW c fields kw ts hc hn h
     | true =>
       exfalso
       unfold constructRaises at h
@@ -426,52 +409,68 @@ theorem statement_partial (O : Oracles) (T : Texts) (J : Codec) (ff : Bool) (c :
       · split at h <;> simp at h
   · trivial
 
-/-! ### the full statement is false of the pinned code (and of the model that mirrors it) -/
+/-! ### the full statement is still false: names outside `[\w.]` -/
 
 def exClass : ClassOpts := { name := "Foo", required := [] }
 def exFields : List (String × FieldDecl) := [("i", .integer {}), ("s", .string none (some 2) none)]
-def exKw : List (String × PyVal) := [("i", .str "a\nb"), ("s", .str "abc")]
 def exOracles : Oracles := ⟨fun _ _ => false⟩
+def exCodec : Codec := ⟨fun _ => [], fun _ => .invalid, asciiWord⟩
 def exTexts : Texts := fun s =>
-  if s.top == "i" then ("'a\nb'".toList, "Expected <class 'int'>".toList)
+  if s.loc.shape == .gotLast then ("'x'".toList, "Expected <class 'int'>".toList)
   else ("'abc'".toList, "Expected a maximum length of 2".toList)
-def exCodec : Codec := ⟨fun _ => [], fun _ => .invalid⟩
+
+/-- a class whose field is the valid identifier `x` + U+0301 (not `isalnum`, in Python as in
+    `asciiWord`) -/
+def exMarkFields : List (String × FieldDecl) := [(String.ofList ['x', '́'], .integer {})]
+def exMarkKw : List (String × PyVal) := [(String.ofList ['x', '́'], .str "x")]
+
+theorem asciiWord_sound : Word.Sound asciiWord := ⟨fun _ h => h, by decide⟩
+
+theorem exTexts_wellFormed : TextsWellFormed exTexts := by
+  intro s
+  unfold siteGood exTexts
+  cases s.loc.shape <;> decide
 
 theorem ex_raises :
-    constructRaises exOracles exTexts true exClass exFields exKw =
-      .single .typeErr "Foo.i: Expected <class 'int'>; Got 'a\nb'".toList := by decide
+    constructRaises exOracles exTexts true exClass exMarkFields exMarkKw =
+      .single .typeErr ("Foo.".toList ++ ['x', '́'] ++ ": Expected <class 'int'>; Got 'x'".toList) := by
+  decide
 
 theorem statement_false : ¬ Statement := by
   intro h
-  have := h exOracles exTexts exCodec true exClass exFields exKw (by simp) (by decide)
+  have := h exOracles exTexts exCodec true exClass exMarkFields exMarkKw asciiWord_sound (by simp)
+    exTexts_wellFormed (by decide)
   unfold Reported at this
   rw [ex_raises] at this
   obtain ⟨n, _, _, i, hi, ⟨p, hp, _⟩, _⟩ := this
   simp only [readable, if_true, Except.ok.injEq, Out.single.injEq] at hi
   rw [← hi, internal_field] at hp
-  have : (parseMsg "Foo.i: Expected <class 'int'>; Got 'a\nb'".toList).field = none := by decide
+  have : (parseMsg exCodec.word
+      ("Foo.".toList ++ ['x', '́'] ++ ": Expected <class 'int'>; Got 'x'".toList)).field = none := by
+    decide
   rw [this] at hp
   simp at hp
 
-/-- non-vacuity: a two-field class with both arguments invalid; fail-fast reports the first in
-    signature order, collect-all both, and the helper's fields are the two full paths -/
-def ex2Kw : List (String × PyVal) := [("s", .str "abc"), ("i", .str "x")]
+/-- non-vacuity: a two-field class with both arguments invalid (one value with a newline);
+    fail-fast reports the first in signature order, collect-all both, and the helper's fields are
+    the two full paths -/
+def ex2Kw : List (String × PyVal) := [("s", .str "abc"), ("i", .str "a\nb")]
 def ex2Texts : Texts := fun s =>
-  if s.top == "i" then ("'x'".toList, "Expected <class 'int'>".toList)
+  if s.top == "i" then ("'a\nb'".toList, "Expected <class 'int'>".toList)
   else ("'abc'".toList, "Expected a maximum length of 2".toList)
 
 theorem construct_example :
     invalidFields exOracles exClass ex2Kw exFields = ["i", "s"] ∧
     constructRaises exOracles ex2Texts true exClass exFields ex2Kw =
-      .single .typeErr "Foo.i: Expected <class 'int'>; Got 'x'".toList ∧
+      .single .typeErr "Foo.i: Expected <class 'int'>; Got 'a\nb'".toList ∧
     constructRaises exOracles ex2Texts false exClass exFields ex2Kw =
-      .collected ["Foo.i: Expected <class 'int'>; Got 'x'".toList,
+      .collected ["Foo.i: Expected <class 'int'>; Got 'a\nb'".toList,
                   "Foo.s: Got 'abc'; Expected a maximum length of 2".toList] ∧
     (sites exOracles exClass ex2Kw exFields).all (siteGood ex2Texts) = true ∧
-    parseMsg "Foo.i: Expected <class 'int'>; Got 'x'".toList =
-      ⟨some "Foo.i".toList, some "'x'".toList, "Expected an integer number".toList, false⟩ ∧
-    parseMsg "Foo.s: Got 'abc'; Expected a maximum length of 2".toList =
-      ⟨some "Foo.s".toList, some "'abc'".toList, "Expected a maximum length of 2".toList, false⟩ := by
+    parseMsg asciiWord "Foo.i: Expected <class 'int'>; Got 'a\nb'".toList =
+      ⟨some "Foo.i".toList, some "'a\nb'".toList, "Expected an integer number".toList⟩ ∧
+    parseMsg asciiWord "Foo.s: Got 'abc'; Expected a maximum length of 2".toList =
+      ⟨some "Foo.s".toList, some "'abc'".toList, "Expected a maximum length of 2".toList⟩ := by
   decide
 
 end Typedpy.C18
